@@ -7,6 +7,7 @@ expressions/statements whose tree is taken from CPython's parser (grouping oracl
 programs whose operands log their own evaluation."""
 import ast, collections, concurrent.futures, json, os, random, re, subprocess
 import vlib, pydiff
+import forms_c01
 
 THEOREMS = ["C01_expression_code_follows_pythons_rule", "C01_whole_expression", "C01_each_operand_once_in_order", "C01_assignment_code_follows_pythons_rule"]
 IMPL = os.path.join(vlib.GO, "bin", "impl")
@@ -299,16 +300,23 @@ def check(res):
         progs_.append(body)
     a = pydiff.run_impl(progs_); b = pydiff.run_ref(progs_)
     mism = []
+    # statement and expression forms outside the model (keyword/star arguments, comprehensions, slices, del, with,
+    # defaults, decorators, class statements, loops, generators, unpacking ...), one program each
+    fprogs = [PRELUDE + forms_c01.FORMS_PRE + "del log[:]\n" + f + "\n" for f in forms_c01.FORMS]
+    fa = pydiff.run_impl(fprogs); fb = pydiff.run_ref(fprogs)
+    for f, x, y in zip(forms_c01.FORMS, fa, fb):
+        gx = "<GO PANIC %s>" % (x.get("panic") or x.get("crash") or "hang") if (x.get("panic") or x.get("crash") or x.get("hang")) else (x.get("out", ""), x.get("err", ""))
+        if gx != (y.get("out", ""), y.get("err", "")): mism.append((f, str(gx)[:300], str((y.get("out", ""), y.get("err", "")))[:300]))
     allch = chunks + schunks + [["%s = %s" % (p, v) for p, v, _ in ch] for ch in uchunks]
     for ch, x, y in zip(allch, a, b):
         xo = x.get("out", "").splitlines(); yo = y.get("out", "").splitlines()
         if len(xo) != len(yo) or x.get("err") != y.get("err"): mism.append((ch[min(len(xo), len(ch) - 1)], str(x)[-200:], str(y)[-200:]))
         for e, l1, l2 in zip(ch, xo, yo):
             if l1 != l2: mism.append((e, l1, l2))
-    res.oblige("oracle: %d expressions, %d assignment statements and %d unpacking assignments whose operands log their evaluation: values, bindings and evaluation log agree with CPython" % (len(exprs), len(stm), len(unp)), not mism, str(mism[:2])[:400])
+    res.oblige("oracle: %d expressions, %d assignment statements, %d unpacking assignments and %d further statement forms whose operands log their evaluation: values, bindings and evaluation log agree with CPython" % (len(exprs), len(stm), len(unp), len(fprogs)), not mism, str(mism[:2])[:400])
     kinds = collections.Counter(m for m, _ in cases)
     res.coverage.update(evaluations=len(rows) + len(exprs) + len(stm), distinct_nontrivial=len(set(r for r in rows)), programs=len(progs_),
-        rule="(T) seeded random expression trees of depth 1-4 over 12 binary and 4 unary operators, and/or with 2-3 operands, comparison chains of 1-3 operators out of 10, conditional expressions, tuples, lists, calls with 1-2 arguments, subscripts, 2- and 3-part slices, attributes; rendered with minimal parentheses by precedence plus random redundant ones; all ordered pairs of 19 operators (with and without unary prefixes) for precedence/associativity; assignment statements with 1-3 targets (name, subscript, attribute) and augmented assignments with 12 operators; the tree of every text is taken from CPython's parser; (oracle) well-typed expressions and statements over logging operands run in both interpreters; unpacking assignments with 1-5 targets, a starred target at every position, nesting to depth 2, tuple and list syntax, list/tuple/iterator right-hand sides of right and wrong length",
+        rule="(T) seeded random expression trees of depth 1-4 over 12 binary and 4 unary operators, and/or with 2-3 operands, comparison chains of 1-3 operators out of 10, conditional expressions, tuples, lists, calls with 1-2 arguments, subscripts, 2- and 3-part slices, attributes; rendered with minimal parentheses by precedence plus random redundant ones; all ordered pairs of 19 operators (with and without unary prefixes) for precedence/associativity; assignment statements with 1-3 targets (name, subscript, attribute) and augmented assignments with 12 operators; the tree of every text is taken from CPython's parser; (oracle) well-typed expressions and statements over logging operands run in both interpreters; unpacking assignments with 1-5 targets, a starred target at every position, nesting to depth 2, tuple and list syntax, list/tuple/iterator right-hand sides of right and wrong length; %d fixed statement forms with logging operands (calls with keyword or star arguments, comprehensions, slices, slice assignment, del, with, defaults, decorators, class statements, loops with else, generators with send, try/finally, nonlocal/global augmented assignment)" % len(forms_c01.FORMS),
         samples=[dict(source=cases[7][1], code=obs[7] if len(obs) > 7 else None)], distribution=dict(sources=dict(kinds), compared=len(rows), skipped=dict(skipped), dynamic_expressions=len(exprs), dynamic_statements=len(stm)),
         modelled_not_verified=["keyword/star arguments, lambda, comprehensions, dict/set displays, unpacking targets, raising operands: compared with CPython where generated, not in the model"])
     if mism:
